@@ -38,6 +38,10 @@ CHECKS = {
                 text="_call_impl / KDComposeCollator.__call__ / KDSingleCollatorWrapper.__call__: default_collate at most once and exactly when a member asks, every member sees the layout its mode asks for, "
                      "(batch, ctx) iff configured, ctx is the batch's own batched context; obligations on explicitly rejected member orders are excused; the padding collator is bounded only",
                 note=TRUST + "; torch default_collate (dict key set preserved, list->batch) assumed"),
+    "C20": dict(level="other", technique="contract-based deductive verification in a crash Hoare logic over an abstract file system (one SMT obligation per crash-exposed state of every FS call of the real bodies) + fault-injection stand-in on the real functions",
+                text="CI (marker protocol invariant) is precondition and must hold in every state a crash can expose; post-conditions for complete copy / untouched user folder / idempotence / truthful result. "
+                     "42 of 48 obligations are discharged; 3 crash windows per function genuinely violate CI (replayed by crash injection) and are listed as known findings, so the claim is 'other', not 'proof'",
+                note=TRUST + "; file-system model of crashfs.py (atomic mkdir/marker creation, non-atomic rmtree/copytree/extractall); unzip helpers and folder_contains_mostly_zips enter as assumed contracts and are exercised by the fault-injection stand-in"),
 }
 PENDING = "check not built yet in this round (work in progress, see DESIGN.md Appendix B)"
 NOT_APPLICABLE = {f"C{i:02d}": PENDING for i in range(1, 21)}
